@@ -49,7 +49,7 @@ func (c01) Info() core.Info {
 		ID:    "C01",
 		Title: "SELECT returns exactly the pairs satisfying WHERE, once each, in key order",
 		Level: "exploration",
-		Rule: "all predicates of depth 1 over the atom pool (field/literal comparisons with the literal on either side, regexps, IN lists incl. duplicates, BETWEEN, conversion/string/arithmetic atoms) on all 64 sub-stores of {a,ab,abb,b,ba,c} x {numeric, mixed} values; all depth-2 trees a∘b, !(a), !(a∘b) (quick) and depth-3 trees over a reduced pool (thorough) on fixed stores incl. a 70-pair one; each executed row-at-a-time and in batches of 1,2,3,32 (each twice) and compared with the reference evaluator's rows in key order. " +
+		Rule: "all predicates of depth 1 over the atom pool (field/literal comparisons with the literal on either side, regexps, IN lists incl. duplicates, BETWEEN, conversion/string/arithmetic atoms) on all 128 sub-stores of {'',a,ab,abb,b,ba,c} x {numeric, mixed} values; all depth-2 trees a∘b, !(a), !(a∘b) (quick) and depth-3 trees over a reduced pool (thorough) on fixed stores incl. a 70-pair one; each executed row-at-a-time and in batches of 1,2,3,32 (each twice) and compared with the reference evaluator's rows in key order. " +
 			"Non-trivial: the predicate is in the reference's domain on every pair and selects a proper non-empty subset. Distinct: (predicate text, store).",
 		Assumptions: []string{
 			"reference evaluator written from README.md/spec.md (DESIGN.md §3.2); cases outside its documented domain are counted and not judged",
@@ -127,7 +127,7 @@ func (c01) Units(t core.Tier) int { return len(c01Units(t)) }
 var c01FixedStores = func() [][]store.Pair {
 	return [][]store.Pair{
 		subsetStore(63, c01NumVals),
-		subsetStore(63, c01MixVals),
+		subsetStore(127, c01MixVals),
 		subsetStore(0b101101, c01NumVals),
 		subsetStore(0b010110, c01MixVals),
 		nil,
@@ -143,7 +143,7 @@ func (c01) RunUnit(t core.Tier, u int, r *core.Reporter) {
 	switch un.fam {
 	case "d1":
 		for i := un.i; i < un.i+8 && i < len(atoms); i++ {
-			for mask := 0; mask < 64; mask++ {
+			for mask := 0; mask < 128; mask++ {
 				c01Explore(r, atoms[i], subsetStore(mask, c01NumVals), true)
 				c01Explore(r, atoms[i], subsetStore(mask, c01MixVals), true)
 			}
